@@ -5,7 +5,7 @@ import t2, t2props
 
 
 def judge(c, iv, ia, spec, mv, ma):
-    if c["kind"] == "targeted" and c["what"] in ("bool", "marker", "enum", "disc", "disc-bool", "utf8"):
+    if c["kind"] == "targeted" and c["what"] in ("bool", "marker", "enum", "disc", "disc-bool", "utf8", "utf8-ascii-rest"):
         if iv != c["expect"]:
             return (c["expect"], "undeclared %s value not rejected with the documented error" % c["what"])
         return None
